@@ -311,6 +311,8 @@ pub struct Simk {
     pub enter_fault: Option<i32>,
     /// How often the sq-thread may go idle.
     pub idle_budget: u32,
+    /// (thread, logical time, waited for events) of every return from `enter`.
+    pub enter_returns: Vec<(usize, u64, bool)>,
     /// Zero-copy sends that fail (or are cancelled) still post a notification:
     /// the failing CQE carries F_MORE (as Linux 6.x does once the notification
     /// was allocated). false: a single CQE without F_MORE.
@@ -390,6 +392,7 @@ pub fn reset(plan: SetupPlan) {
             pattern_salt: 0,
             enter_fault: None,
             idle_budget: 1,
+            enter_returns: Vec::new(),
             zc_error_notif: true,
         });
     })
@@ -1950,6 +1953,11 @@ unsafe fn k_enter(
             let mut g = lock();
             let k = g.as_mut().unwrap();
             k.log.push(Event::Enter { ring, to_submit, min_complete, flags, ret: result, timeout });
+        }
+        {
+            let mut g = lock();
+            let k = g.as_mut().unwrap();
+            k.enter_returns.push((thread_id(), crate::waker::tick(), flags & ENTER_GETEVENTS != 0 && min_complete > 0));
         }
         crate::schx::syscall_point("enter-return");
         ret(result)
